@@ -442,6 +442,72 @@ func c08Extend(c *fw.Ctx, idx int) {
 	}
 }
 
+// c08EveryLength: bounds of a line of exactly idx coordinates whose extreme Z
+// and M sit at one chosen coordinate (the last, the one before, the first, the
+// middle, the last before a multiple of four, a random one) and whose X and Y
+// extremes are its two ends: a fold over the coordinates made in blocks or
+// several at a time shows at the length that puts a seam on an extreme.
+func c08EveryLength(c *fw.Ctx, idx int) {
+	n := idx + 1
+	r := c.R
+	for _, layout := range []geom.Layout{geom.XY, geom.XYZ, geom.XYM, geom.XYZM} {
+		stride := layout.Stride()
+		for _, j := range []int{n - 1, n - 2, 0, n / 2, (n - 1) - (n-1)%4, r.Intn(n)} {
+			if j < 0 {
+				continue
+			}
+			flat := make([]float64, n*stride)
+			for i := 0; i < n; i++ {
+				flat[i*stride], flat[i*stride+1] = float64(i), float64(-i)
+				for k := 2; k < stride; k++ {
+					if i == j {
+						flat[i*stride+k] = float64(1000000 * (2*k - 5)) // -1e6 in dimension 2, +1e6 in dimension 3
+					}
+				}
+			}
+			c.SetInput(map[string]any{"line": "x = i, y = -i, other ordinates 0 except at one coordinate", "coordinates": n, "layout": layout.String(), "extreme_at": j})
+			var b1, b2, b3 *geom.Bounds
+			if c.Guard("panic", func() {
+				ls := geom.NewLineStringFlat(layout, flat)
+				b1 = ls.Bounds()
+				b2 = geom.NewBounds(layout).Extend(ls)
+				b3 = geom.NewGeometryCollection().MustPush(geom.NewMultiPointFlat(layout, flat)).Bounds()
+			}) {
+				return
+			}
+			c.Eval(3)
+			for bi, b := range []*geom.Bounds{b1, b2, b3} {
+				how := []string{"LineString.Bounds()", "NewBounds().Extend(LineString)", "Bounds() of a collection holding the coordinates as a MultiPoint"}[bi]
+				if b.Layout() != layout {
+					c.Fail("wrong-bounds-layout", "%s: layout %s, want %s", how, b.Layout(), layout)
+					return
+				}
+				for d := 0; d < stride; d++ {
+					lo, hi := 0.0, 0.0
+					switch {
+					case d == 0:
+						hi = float64(n - 1)
+					case d == 1:
+						lo = float64(-(n - 1))
+					case 2*d-5 < 0:
+						lo = float64(1000000 * (2*d - 5))
+					default:
+						hi = float64(1000000 * (2*d - 5))
+					}
+					if b.Min(d) != lo || b.Max(d) != hi {
+						c.Fail("wrong-bounds", "%s of %d coordinates (extreme at coordinate %d): dimension %d is [%v, %v], exact [%v, %v]", how, n, j, d, b.Min(d), b.Max(d), lo, hi)
+						return
+					}
+				}
+			}
+		}
+	}
+	c.Count("line_lengths_bounded")
+	if idx%1000 == 0 {
+		c.Distinct(fmt.Sprintf("every-length/%d", idx))
+	}
+}
+
 // (c) overlap tests against closed-interval arithmetic on a 0..4 grid
 func c08Overlap(c *fw.Ctx, idx int) {
 	r := c.R
@@ -769,6 +835,7 @@ func init() {
 			{Name: "extend-orders", Quick: 15000, Thorough: 1200000, Run: c08Extend},
 			{Name: "overlaps", Quick: 100000, Thorough: 12000000, Run: c08Overlap},
 			{Name: "collection-histories", Quick: 40000, Thorough: 4000000, Run: c08CollHistory},
+			{Name: "every-length", Quick: 6000, Thorough: 30000, Chunk: 40, Run: c08EveryLength, Exhaustive: "lines of every number of coordinates from 1 to the class count, four layouts, six positions of the extreme coordinate"},
 		},
 		Require: []string{"collections", "nested_collections", "collections_mixing_layouts", "coordinate_free", "permutation_sets_fully_enumerated", "extend_mixing_xyz_and_xym", "overlap_true", "overlap_false", "overlap_touching", "overlap_with_empty_box", "overlap_with_partly_empty_box", "overlaps_point_true", "overlaps_point_false"},
 	})
